@@ -5745,6 +5745,9 @@ def _compute_partition_stats(
     if (
         sorted(non_empty_mins) != non_empty_mins
         or sorted(non_empty_maxes) != non_empty_maxes
+        # a partition that starts below the end of the previous one interleaves
+        # with it: no divisions describe that (equal boundaries can be resolved)
+        or any(a < b for a, b in zip(non_empty_mins[1:], non_empty_maxes[:-1]))
     ):
         raise ValueError(
             f"Partitions are not sorted ascending by {column.name or 'the index'}. ",
